@@ -302,6 +302,17 @@ impl<Fut: Future> Extend<Fut> for FuturesOrderedBounded<Fut> {
     }
 }
 
+#[cfg(feature = "verif")]
+impl<Fut: Future> FuturesOrderedBounded<Fut> {
+    /// Verification hook: set both position counters to `start`.
+    /// Only meaningful while the queue is empty.
+    pub fn verif_seed_positions(&mut self, start: usize) {
+        debug_assert!(self.is_empty());
+        self.next_incoming_index = Wrapping(start);
+        self.next_outgoing_index = Wrapping(start);
+    }
+}
+
 #[cfg(test)]
 mod tests {
     use crate::FuturesOrderedBounded;
